@@ -1327,17 +1327,25 @@ reply_parse(struct evdns_base *base, u8 *packet, int length)
 		if (name_parse(req->request, req->request_len, &k,
 			cmp_name, sizeof(cmp_name))<0)
 			goto err;
-		if (!base->global_randomize_case) {
-			if (strcmp(tmp_name, cmp_name) == 0)
-				name_matches = 1;
-		} else {
-			if (evutil_ascii_strcasecmp(tmp_name, cmp_name) == 0)
+		if (j + 4 > length)
+			goto err;
+		{
+			/* the question must also ask for our type, class IN */
+			u16 qtype, qclass;
+			int this_name_matches;
+			memcpy(&qtype, packet + j, 2);
+			memcpy(&qclass, packet + j + 2, 2);
+			if (!base->global_randomize_case)
+				this_name_matches = strcmp(tmp_name, cmp_name) == 0;
+			else
+				this_name_matches =
+				    evutil_ascii_strcasecmp(tmp_name, cmp_name) == 0;
+			if (this_name_matches &&
+			    ntohs(qtype) == req->request_type &&
+			    ntohs(qclass) == CLASS_INET)
 				name_matches = 1;
 		}
-
 		j += 4;
-		if (j > length)
-			goto err;
 	}
 
 	if (!name_matches)
